@@ -256,4 +256,48 @@ PROPS = {
         ],
         "assumptions": ["the branch's previous entry is unskipped and no policy or attestation entry is recorded between prediction and merge (as the property states)"],
     },
+    "C10": {
+        "propfile": "PropC10.v",
+        "n": {"quick": 24, "thorough": 600},
+        "corr": "pkg/gitinterface GetFilePathsChangedByCommit / GetAllFilesInTree / GetEntriesInTree / TreeBuilder.WriteTreeFromEntries on real "
+                "repositories (git binary) vs the trees as written, raw `git ls-tree -z` output vs GitFormat.print_lstree_z, GitFormat.parse_lstree_z "
+                "on that raw output vs what gitinterface returned; VerifyRefFull (path and commit enumeration through the real gitinterface) vs "
+                "FileRules.verify_full_files; and, on the implementation's answers, that an accepted history has every protected changed path covered",
+        "rule": "3-7 commits (root commits, single-parent, merges incl. merges identical to their last parent) whose trees hold 1-3-component paths "
+                "over 28 components incl. space, leading/trailing blank, tab, CR, double quote, backslash, 0x01, 0x7f, 2- and 3-byte UTF-8, * ? [ ] { } "
+                "# ~ ' :; commits signed by 4 authorised keys, an unknown key or unsigned; policy: 1-3 file rules (exact odd path, dir/*, *, *suffix; "
+                "1-3 principals, threshold 1-2, sometimes terminating) next to a permissive branch rule; 1-3 pushes to main with distinct trees, a "
+                "third preceded by approvals. Objects are written by the harness as loose objects into a real bare repository. non-trivial = the "
+                "history contains at least one odd path (blank, quote, backslash, control, non-ASCII or glob metacharacter)",
+        "theorems": ["C10_names_verbatim", "C10_tree_listing_verbatim", "C10_tree_rewrite_verbatim", "C10_changed_paths_complete",
+                     "C10_accepted_entry_covers_every_path"],
+        "trusted": [
+            "git's -z output format and mktree -z input format are modelled (GitFormat.v); each run compares the print model with raw git output and re-reads rewritten trees",
+            "paths containing newline or NUL, non-UTF-8 path bytes in rule patterns, submodule/symlink/executable entries and global rules over file paths are not generated",
+            "verify_full_files composes World.verify_full with the per-entry file check for histories of the generated shape (one policy, no annotations, distinct trees per ref)",
+            "Covered speaks of verifier names (the already-verified shortcut); uniqueness of rule names in a loaded policy is the loader's check, not proved here",
+        ],
+        "assumptions": ["the git binary on PATH implements ls-tree/diff-tree/mktree -z as documented"],
+    },
+    "C18": {
+        "propfile": "PropC18.v",
+        "n": {"quick": 40, "thorough": 800},
+        "corr": "internal/propagation.PropagateChangesFromUpstreamRepository on pairs of real repositories, repeated 1-3 times, vs "
+                "Propagate.repeat_propagate: error/ok, the downstream tree (read with `git ls-tree -r -z`, parsed by the harness), commits made, "
+                "propagation entries (ref, tree of the commit named, upstream location, upstream entry); and, on the implementation's answers, the "
+                "clauses of the property (outside paths unchanged, path = upstream subtree, entry names, repetitions change nothing)",
+        "rule": "upstream: two commits with nested odd-named paths incl. metadata/ and 'sub dir/'; upstream log in one of 5 states (one entry, updated, "
+                "latest skipped, all skipped, none for the ref); 1-2 directives with upstream path in {'', metadata, 'sub dir', 'sub dir/', missing} "
+                "and downstream path in {d, d/, 'a b/c', e-acute, 'vendor/up stream', q\"x, foo} (not prefixes of one another); downstream tree with "
+                "content below the path (or a regular file at it) and look-alike siblings '<path>bar/', '<path> x/'; downstream already holding "
+                "the upstream objects or not (graft vs rebuild). non-trivial = some directive finds an upstream entry",
+        "theorems": ["C18_path_holds_upstream_subtree", "C18_subtree_is_exactly_upstream", "C18_other_paths_unchanged", "C18_step_effect",
+                     "C18_idempotent", "C18_any_number_of_repetitions"],
+        "trusted": [
+            "trees are modelled flat (full path -> blob, regular files); file modes (the rebuild writes 100644), symlinks, submodules and empty upstream trees are not generated",
+            "idempotence is proved per directive; several directives whose downstream paths are prefixes of one another are not generated",
+            "upstream and downstream gittuf refs are assumed synced, as PropagateChangesFromUpstreamRepository itself assumes",
+        ],
+        "assumptions": ["equal git tree ids are taken to mean equal flat contents (canonical trees of regular files)"],
+    },
 }
